@@ -9,6 +9,7 @@ import BV.Drv.C06
 import BV.Drv.C08
 import BV.Drv.C11
 import BV.Drv.C09
+import BV.Drv.C10
 
 def dispatch (line : String) : String :=
   match (line.trimAscii.toString.splitOn " ").filter (· ≠ "") with
@@ -25,6 +26,7 @@ def dispatch (line : String) : String :=
   | "c08" :: rest => BV.Drv.C08.handle rest
   | "c11" :: rest => BV.Drv.C11.handle rest
   | "c09" :: rest => BV.Drv.C09.handle rest
+  | "c10" :: rest => BV.Drv.C10.handle rest
   | _ => "bad-op"
 
 partial def loop (h : IO.FS.Stream) (out : IO.FS.Stream) : IO Unit := do
